@@ -844,25 +844,28 @@ def stage_send_faults(ctx, stats):
     import errno
     rng = ctx.rng
     real_write = os.write
-    state = dict(fd=None, plan=[], hits=0)
+    state = dict(fd=None, plan=[], hits=0, applied=None)
 
     def faulty(fd, data):
         if fd == state['fd'] and state['plan']:
             k = state['plan'].pop(0)
             if k == 'eagain':
                 state['hits'] += 1
+                state['applied'] = 'r'
                 raise BlockingIOError(errno.EAGAIN, 'Resource temporarily unavailable')
             if k == 'short' and len(data) > 1:
                 state['hits'] += 1
+                state['applied'] = 's=%d' % max(1, len(data) // 2)
                 return real_write(fd, data[:max(1, len(data) // 2)])
         return real_write(fd, data)
 
     n = 0
+    mlines, mreal, mdesc = [], [], []
     for tr in ('pty', 'fd'):
         for enc in (None, 'utf-8'):
             for plan_kind in ('eagain', 'short', 'mixed'):
                 ses = S.Session(tr, encoding=enc, logs=('logfile', 'logfile_send'))
-                asked, outcomes = [], []
+                asked, outcomes, toks, peer = [], [], [], b''
                 try:
                     state['fd'] = ses.p.child_fd
                     os.write = faulty
@@ -873,17 +876,27 @@ def stage_send_faults(ctx, stats):
                         state['plan'] = {'eagain': ['eagain'], 'short': ['short'], 'mixed': [rng.choice(['eagain', 'short', 'ok'])]}[plan_kind] if j in (1, 3) else []
                         want = v + ((os.linesep if enc else os.linesep.encode()) if form == 'sendline' else (v[:0]))
                         asked.append(want)
+                        state['applied'] = None
                         try:
                             getattr(ses.p, form)(v)
                             outcomes.append('ret')
                         except OSError as e:
                             outcomes.append(type(e).__name__)
                         state['plan'] = []
+                        ap = state['applied']
+                        toks.append(('L' if form == 'sendline' else 'S') + ('=' if ap is None else ap + '=') + S.enc_text(v))
+                    os.write = real_write
+                    peer = ses.peer_received(sum(len(a if isinstance(a, bytes) else a.encode('utf-8')) for a in asked))
                 finally:
                     os.write = real_write
                     logs = {k: [e[1] for e in r.ev if e[0] == 'w'] for k, r in ses.logs.items()}
+                    evs = {k: '|'.join(('w:s:' + S.enc_text(e[1])) if e[0] == 'w' else 'f' for e in r.ev) for k, r in ses.logs.items()}
                     ses.close()
                 n += 1
+                c_ = consts()
+                mlines.append('SG %s %s %d %d %s' % ('u8' if enc else 'l1', S.enc_text(LINESEP), c_['eof'], c_['intr'], ' '.join(toks)))
+                mreal.append('peer=%s log=%s ls=%s' % (S.enc_text(peer), evs['logfile'], evs['logfile_send']))
+                mdesc.append('%s/%s/%s' % (tr, 'unicode' if enc else 'bytes', plan_kind))
                 for name in ('logfile', 'logfile_send'):
                     if logs[name] != asked:
                         common.report(ctx, 'c11/%s/send-fault-%s' % (tr, plan_kind),
@@ -893,6 +906,17 @@ def stage_send_faults(ctx, stats):
                                           [repr(x)[:24] for x in logs[name]]),
                                       dict(stage='stage_send_faults', transport=tr, encoding=enc, plan=plan_kind))
                         break
+    # the same requests with the same fates through the Lean model (Sess.runF): what reached the peer and what the logs hold
+    try:
+        mouts = common.run_model(mlines)
+        for ml, mo, mr, md in zip(mlines, mouts, mreal, mdesc):
+            pm = ' '.join(t for t in mo.split(' ') if t.startswith(('peer=', 'log=', 'ls=')))
+            if pm != mr and not ctx.violations:
+                ctx.broken.append('correspondence send-fault model vs %s: real %s model %s line %s' % (md, mr[:300], pm[:300], ml[:200]))
+                break
+        stats['send_fault_sessions_through_model'] = len(mouts)
+    except common.ModelUnavailable as e:
+        ctx.broken.append('model driver unavailable: ' + str(e)[:300])
     stats['send_fault_sessions'] = n
     stats['send_faults_injected'] = state['hits']
 
